@@ -287,9 +287,9 @@ Definition handle_connect (c : cfg) (pns : option str) (data : pv) : CM unit :=
 
 (* _handle_disconnect *)
 Definition handle_disconnect (c : cfg) (pns : option str) : CM unit :=
-  s <~ getS ;;
-  if negb (connected s) then ret tt else
   let ns := ns_or_default pns in
+  s <~ getS ;;
+  if negb (connected s) && negb (ahas str_eqb (namespaces s) ns) then ret tt else
   trigger_ c ev_disconnect ns [r_server_disconnect] ;;;
   trigger_ c ev_final ns [] ;;;
   set_namespaces (fun d => adel str_eqb d ns) ;;;
@@ -539,7 +539,7 @@ Definition connect_wait (c : cfg) (window : list (pv * jtable)) : CM unit :=
   forM window (fun m => deliver c (fst m) (snd m)) ;;;
   s2 <~ getS ;;
   if set_eqb (map fst (namespaces s2)) (conn_ns s2) then ret tt
-  else api_disconnect c ;;; raise ConnectionError.
+  else api_disconnect c ;;; set_namespaces (fun _ => []) ;;; raise ConnectionError.
 
 Definition api_connect (c : cfg) (nss : option (list str)) (auth : pv) (wait eio_fails : bool)
            (window : list (pv * jtable)) : CM unit :=
